@@ -4,8 +4,8 @@ import (
 	"sort"
 
 	"github.com/cockroachdb/errors/oserror"
-	"github.com/cockroachdb/pebble/vfs"
 	sym "github.com/cockroachdb/pebble/internal/verifsym"
+	"github.com/cockroachdb/pebble/vfs"
 )
 
 // crashDir is a one-directory filesystem with an explicit crash model. Every
@@ -25,7 +25,7 @@ type dirOp struct {
 	create bool
 }
 
-func (d *crashDir) dead() bool { d.ops++; return d.ops > d.crashAt }
+func (d *crashDir) dead() bool                     { d.ops++; return d.ops > d.crashAt }
 func (d *crashDir) PathJoin(elem ...string) string { return elem[len(elem)-1] }
 func (d *crashDir) List(string) ([]string, error) {
 	var ls []string
